@@ -144,7 +144,7 @@ def DECOY_HEADER(box, velz):
     return dict(BoxSizeHMpc=float(box) * 0.6736, BoxSizeMpc=float(box), hMpc=0, H0=67.36, VelZSpace_to_Canonical=float(velz) / 3.0, ParticleMassHMsun=2.1e9, ParticleMassMsun=3.1e9, InitialRedshift=99.0, ScaleFactor=1 / 1.5, NP=64**3)
 
 
-def make_tree(rng, nslab=3, slab_inds=None, halos_per_slab=None, box=500.0, velz=1234.5, ppd=64, nprev=2, compression=None, gap_prob=0.5, zero_part_prob=0.15, cleaned_away_prob=0.15, merge_prob=0.4, trailing=True, sim='SimA', smallratio=False, root=None, max_np=12, int_header=False, clean_layout=1, big_ints=False, giant=None):
+def make_tree(rng, nslab=3, slab_inds=None, halos_per_slab=None, box=500.0, velz=1234.5, ppd=64, nprev=2, compression=None, gap_prob=0.5, zero_part_prob=0.15, cleaned_away_prob=0.15, merge_prob=0.4, trailing=True, sim='SimA', smallratio=False, root=None, max_np=12, int_header=False, clean_layout=1, big_ints=False, giant=None, blsc_block=None):
     root = root or tempfile.mkdtemp(prefix='verif_cat_')
     if slab_inds is None:
         slab_inds = list(range(nslab))
@@ -237,15 +237,17 @@ def make_tree(rng, nslab=3, slab_inds=None, halos_per_slab=None, box=500.0, velz
         next_id += H
         truth['slabs'][slab] = dict(raw=raw, clean=clean, parts=parts, cparts=cparts, H=H, cleaned_away=cleaned_away)
         comp = compression
-        write_asdf(_mk(zdir, 'halo_info', f'halo_info_{slab:03d}.asdf'), dict(header=header, data=raw), comp)
+        ckw = dict(compression_block_size=int(blsc_block)) if (blsc_block and comp == 'blsc') else None  # small blocks: every column is a sequence of many frames
+        write_asdf(_mk(zdir, 'halo_info', f'halo_info_{slab:03d}.asdf'), dict(header=header, data=raw), comp, compression_kwargs=ckw)
         for ab in 'AB':
-            write_asdf(_mk(zdir, f'halo_rv_{ab}', f'halo_rv_{ab}_{slab:03d}.asdf'), dict(header=header, data=dict(rvint=parts[ab]['rvint'])), comp)
-            write_asdf(_mk(zdir, f'halo_pid_{ab}', f'halo_pid_{ab}_{slab:03d}.asdf'), dict(header=header, data=dict(packedpid=parts[ab]['packedpid'])), comp)
-        write_asdf(_mk(cdir, *sub_hi, f'cleaned_halo_info_{slab:03d}.asdf'), dict(header=cheader, data=clean), comp)
+            write_asdf(_mk(zdir, f'halo_rv_{ab}', f'halo_rv_{ab}_{slab:03d}.asdf'), dict(header=header, data=dict(rvint=parts[ab]['rvint'])), comp, compression_kwargs=ckw)
+            write_asdf(_mk(zdir, f'halo_pid_{ab}', f'halo_pid_{ab}_{slab:03d}.asdf'), dict(header=header, data=dict(packedpid=parts[ab]['packedpid'])), comp, compression_kwargs=ckw)
+        write_asdf(_mk(cdir, *sub_hi, f'cleaned_halo_info_{slab:03d}.asdf'), dict(header=cheader, data=clean), comp, compression_kwargs=ckw)
         write_asdf(
             _mk(cdir, *sub_rp, f'cleaned_rvpid_{slab:03d}.asdf'),
             dict(header=cheader, data=dict(packedpid_A=cparts['A']['packedpid'], packedpid_B=cparts['B']['packedpid'], rvint_A=cparts['A']['rvint'], rvint_B=cparts['B']['rvint'])),
             comp,
+            compression_kwargs=ckw,
         )
     truth['halo_fns'] = [os.path.join(zdir, 'halo_info', f'halo_info_{s:03d}.asdf') for s in slab_inds]
     return truth
